@@ -2,7 +2,8 @@
 (* Validates recorded (input, output) pairs of the real common.Compress against the reference encoder of
    Lzw.tla: the batch trace.ndjson has one {"input": [...], "output": [...]} line per case.  The encoder is
    stepped over the input with the pure step functions of Lzw (FeedFn, CloseFn); the bytes each call emits
-   are compared with the recorded output on the fly.  A mismatch sets `bad` (INVARIANT NoMismatch). *)
+   are compared with the recorded output on the fly.  A mismatch sets `bad`, prints <<"BAD", case, offset, what>> and
+   ends the run (no invariant violation: TLC needs minutes to print an error trace of thousands of states). *)
 EXTENDS Lzw, Json
 Trace == ndJsonDeserialize("trace.ndjson")
 VARIABLES tr,     \* current case
@@ -21,7 +22,8 @@ TFeed == /\ ~fin /\ bad = <<>> /\ pos <= Len(In)
          /\ LET r == FeedFn(Cur, In[pos]) IN
             /\ Apply(r.st)
             /\ IF Matches(r.bytes) THEN opos' = opos + Len(r.bytes) /\ bad' = bad
-               ELSE opos' = opos /\ bad' = <<tr, opos, "output differs from the reference encoder">>
+               ELSE /\ opos' = opos /\ bad' = <<tr, opos, "output differs from the reference encoder">>
+                    /\ PrintT(<<"BAD", tr, opos, "output differs from the reference encoder">>)
          /\ pos' = pos + 1
          /\ UNCHANGED <<inp, out, closed, tr, fin>>
 TClose == /\ ~fin /\ bad = <<>> /\ pos = Len(In) + 1
@@ -30,6 +32,7 @@ TClose == /\ ~fin /\ bad = <<>> /\ pos = Len(In) + 1
              THEN /\ bad' = bad /\ PrintT(<<"T", tr>>)
                   /\ IF tr < Len(Trace) THEN tr' = tr + 1 /\ fin' = fin ELSE tr' = tr /\ fin' = TRUE
              ELSE /\ bad' = <<tr, opos, "final bytes differ from the reference encoder">> /\ tr' = tr /\ fin' = fin
+                  /\ PrintT(<<"BAD", tr, opos, "final bytes differ from the reference encoder">>)
           /\ pos' = 1 /\ opos' = 0
           /\ code' = -1 /\ dict' = <<>> /\ hi' = 257 /\ width' = 9 /\ overflow' = 512 /\ acc' = 0 /\ nbits' = 0
           /\ UNCHANGED <<inp, out, closed>>
